@@ -64,4 +64,21 @@ def WF (s : State P Q) : Prop := LinksOk s.nodes.length s.segs ∧ LinksOk s.nod
 def ends (nodes : List (Node P)) (e : Link Q) : Option P × Option P :=
   ((nodes[e.n0]?).map (·.p), (nodes[e.n1]?).map (·.p))
 
+/-! ### `addNode`: every line that passes within the tolerance of the new point is split there
+    `for(i=0,k=linelist.size(); i<k; i++) if (|distance of the point from line i| < d) { segm=clone(line i); line i.n1 = new; segm.n0 = new; push(segm); }`
+    (no test whether the pushed half exists already - `addSegment` has one, this loop has not) -/
+
+/-- the line list after the loop: `near i` says that line `i` passes within the tolerance of the new point `new` -/
+def splitLinesAt (near : Nat → Bool) (new : Nat) (ls : List (Nat × Nat)) : List (Nat × Nat) :=
+  let il := (List.range ls.length).zip ls
+  il.map (fun p => if near p.1 then (p.2.1, new) else p.2) ++ (il.filter (fun p => near p.1)).map (fun p => (new, p.2.2))
+
+/-- two entries join the same two points (in either order) -/
+def sameLine (a b : Nat × Nat) : Bool := (a.1 == b.1 && a.2 == b.2) || (a.1 == b.2 && a.2 == b.1)
+
+/-- no line is listed twice -/
+def noDuplicateLines : List (Nat × Nat) → Bool
+  | [] => true
+  | a :: rest => !(rest.any (sameLine a)) && noDuplicateLines rest
+
 end XfemmVerif.Edit
